@@ -227,6 +227,33 @@ fn generate(a: &Args) -> i32 {
         "--- >\nx\n".into(), "- !!str &a x\n- !custom *a\n".into(), "? [a, b]\n: &m {c: d}\n<<: *m\n".into(),
         "a: &a [1]\n...\nb: *a\n".into(), "%YAML 1.2\n---\na\n".into(), "a\n... junk\n".into(), "a\n...\n---\nb\n".into(),
     ];
+    // many anchored containers OPEN AT ONCE before any of them is stored (the table of recorded buffers is indexed by the
+    // parser's anchor ids and must take ids that arrive out of order and far apart), with aliases to the innermost, a middle
+    // and the outermost level; sequences and mappings; then the same behind a document boundary
+    for depth in [3usize, 8, 9, 16, 17, 33, 70] {
+        for kind in 0..2 {
+            let mut t = String::new();
+            if kind == 0 {
+                t.push_str("top: ");
+                for i in 0..depth { t.push_str(&format!("&n{i} [")); }
+                t.push_str("leaf");
+                for _ in 0..depth { t.push(']'); }
+                t.push('\n');
+            } else {
+                for i in 0..depth { t.push_str(&"  ".repeat(i)); t.push_str(&format!("k{i}: &n{i}\n")); }
+                t.push_str(&"  ".repeat(depth)); t.push_str("leaf: &lf 1\n");
+            }
+            t.push_str(&format!("inner: *n{}\nmid: *n{}\nouter: *n0\n", depth - 1, depth / 2));
+            texts.push(t.clone());
+            texts.push(format!("{t}---\nlate: *n{}\n", depth - 1));
+            texts.push(format!("first: &f 1\n---\n{t}---\nx: &n{} 2\ny: *n{}\n", depth - 1, depth - 1));
+        }
+    }
+    // a container that holds nested anchors is stored AFTER them (smaller id, later store): alias to the nested name from the
+    // next document is unknown, within the document it resolves
+    texts.push("defaults: &d {retries: &r 3}\nuse: *r\n---\nretries: *r\n".into());
+    texts.push("defaults: &d {retries: &r 3, more: &m [1, &i 2]}\n---\na: &a 1\n---\nx: *i\ny: *m\nz: *d\n".into());
+    texts.push("- &a [&b [&c 1]]\n- *c\n---\n- &a 2\n- *a\n- *b\n".into());
     for _ in 0..40 { texts.push(alias_heavy(&mut rng)); }
     let ndocs = if a.thorough { 8000 } else { 700 };
     for i in 0..ndocs {
